@@ -191,7 +191,7 @@ class PandasSchemaBackend(BaseSchemaBackend):
     def drop_invalid_rows(self, check_obj, error_handler: ErrorHandler):
         """Remove invalid elements in a check obj according to failures in caught by the error handler."""
         # pylint: disable=import-outside-toplevel,cyclic-import
-        from pandera.api.pandas.types import is_table
+        from pandera.api.pandas.types import is_field, is_table
 
         errors = error_handler.schema_errors
         for err in errors:
@@ -210,6 +210,15 @@ class PandasSchemaBackend(BaseSchemaBackend):
                 # to their original types
                 index_tuples = err.failure_cases["index"].apply(eval)
                 index_values = pd.MultiIndex.from_tuples(index_tuples)
+
+            if (
+                getattr(err.check, "n_failure_cases", None) is not None
+                and is_field(err.check_output)
+                and err.check_output.dtype == bool
+            ):
+                # the check limits the number of reported failure cases:
+                # the rows that fail are those of the check output
+                index_values = err.check_output[~err.check_output].index
 
             mask = ~check_obj.index.isin(index_values)
 
